@@ -378,15 +378,16 @@ def subst(t: T, m: dict) -> T:
     return T(t.op, t.name, [subst(a, m) for a in t.args], {k: subst(v, m) for k, v in t.kw.items()}, t.node)
 
 
-def _pure_helper(ex: Expander) -> Optional[T]:
-    """The return term of a helper that only computes a value (one return, no store into anything)."""
+def _pure_helper(ex: Expander, value_only: bool = False) -> Optional[T]:
+    """The return term of a helper that only computes a value (one return, no store into anything).  `value_only`: the
+    caller is interested in WHAT is returned, not in what else the helper does (effects are checked elsewhere)."""
     def local_fill(s_):
         """a store that only fills a container created inside the helper (result list built with append)"""
         root = s_.base
         while root.op in ("listacc", "phi", "sub") and root.args:
             root = root.args[0]
         return s_.kind == "mcall" and s_.key.name in ("append", "extend") and root.op in ("list", "carried", "dict")
-    if len(ex.returns) != 1 or any(not local_fill(s_) for s_ in ex.stores):
+    if len(ex.returns) != 1 or (not value_only and any(not local_fill(s_) for s_ in ex.stores)):
         return None
     if T.find(ex.returns[0], lambda x: x.op in ("localfn", "lambda")) is not None:
         return None  # a factory of closures is not a value helper
@@ -398,9 +399,16 @@ def _bind(fnode, args, kw, skip_self=False):
     names = [x.arg for x in a.posonlyargs + a.args]
     if skip_self and names and names[0] in ("self", "cls"):
         names = names[1:]
-    if a.vararg or a.kwarg or len(args) > len(names):
+    # f(*(a, b)) == f(a, b)
+    flat = []
+    for x in args:
+        flat += list(x.args[0].args) if (x.op == "star" and x.args[0].op in ("list", "tuple")) else [x]
+    args = flat
+    if any(x.op == "star" for x in args) or a.kwarg or (len(args) > len(names) and not a.vararg):
         return None
     m = dict(zip(names, args))
+    if a.vararg:
+        m["*" + a.vararg.arg] = T("tuple", None, list(args[len(names):]))
     for k, v in kw.items():
         if k in m or k not in names + [x.arg for x in a.kwonlyargs]:
             return None
@@ -423,15 +431,15 @@ def _is_module_recv(t: T) -> bool:
     return t.op == "param" and t.name in ("self", "module", "net", "network", "cell", "view", "pointer")
 
 
-def inline(repo, fi: FuncInfo, t: T, depth: int = 3, keep=()) -> T:
+def inline(repo, fi: FuncInfo, t: T, depth: int = 3, keep=(), value_only: bool = False) -> T:
     """Replace calls of value-only helpers (nested functions of `fi`, module-level functions, methods of fi's class
     called on self) by their return term with the arguments substituted.  `keep`: callee names never inlined (the
     names a rule looks for).  Extracting a sub-expression into such a helper, or inlining one, leaves the result
     unchanged."""
     if depth <= 0:
         return t
-    args = [inline(repo, fi, a, depth, keep) for a in t.args]
-    kw = {k: inline(repo, fi, v, depth, keep) for k, v in t.kw.items()}
+    args = [inline(repo, fi, a, depth, keep, value_only) for a in t.args]
+    kw = {k: inline(repo, fi, v, depth, keep, value_only) for k, v in t.kw.items()}
     t2 = T(t.op, t.name, args, kw, t.node) if (t.args or t.kw) else t
     callee_ex, call_args, skip_self, recv = None, None, False, None
     if t2.op == "call" and t2.name not in keep:
@@ -470,15 +478,16 @@ def inline(repo, fi: FuncInfo, t: T, depth: int = 3, keep=()) -> T:
                 break
     if callee_ex is None:
         return t2
-    ret = _pure_helper(callee_ex)
+    ret = _pure_helper(callee_ex, value_only and callee_ex.fi.parent is not None)
     if ret is None:
         return t2
-    m = _bind(callee_ex.fi.node, call_args, t2.kw, skip_self)
+    from sa.terms import fuse_comprehensions as _fuse
+    m = _bind(callee_ex.fi.node, [_fuse(x) for x in call_args], t2.kw, skip_self)
     if m is None:
         return t2
     if skip_self:
         m["self"] = recv
-    return inline(repo, callee_ex.fi, subst(ret, m), depth - 1, keep)
+    return inline(repo, callee_ex.fi, subst(ret, m), depth - 1, keep, value_only)
 
 
 def norm(repo, fi: FuncInfo, t: T, keep=()) -> T:
